@@ -4,7 +4,8 @@ C14.sig    Group::check_sig: the cryptographic verification (and the value
            returned) is dominated by the RFC 4035 5.3.1 guard table.
 C14.cache  check_sig_cached: the cache key covers the signed data, the full
            RRSIG RDATA (signature included) and the key; the cached value is
-           exactly check_sig's result.
+           exactly check_sig's result, and that result does not depend on
+           the clock (the validity period is tested in front of the cache).
 C14.nsec   nsec_for_not_exists: the delegation / DNAME exclusion tests the
            NSEC owner as a suffix of the *target* (not the reverse).
 C14.range  nsec3_in_range is a strictly open interval: owner hash, target
@@ -13,6 +14,20 @@ C14.range  nsec3_in_range is a strictly open interval: owner hash, target
 C14.chain  do_cname_dname folds the validation state of every link it
            follows (CNAME and DNAME alike) into the state of the chain before
            it goes on to the next name.
+C14.signer the node whose keys create_child_node uses as the signer of a DS
+           answer is never an intermediate node (which has no keys): every
+           value that reaches that argument comes from Node::trust_anchor, or
+           from the cache / a fresh child under an `!intermediate()` guard.
+C14.target Group::validate_with_vc decides secure / insecure from the node of
+           the RRSIG's signer name only when the owner name ends with that
+           signer name; otherwise from the owner itself.
+C14.wild   siblings agree: every caller of check_not_exists_for_wildcard first
+           rules out that the name asked for *is* the wildcard (`*.<ce>`), in
+           which case there is nothing to disprove.
+C14.every  validate_msg folds the state of *every* validated RRset of the
+           answer section into the verdict (a loop over the groups whose
+           state() feeds map_maybe_secure), not only the ones on the CNAME
+           chain and the final answer.
 C14.panic  no unwrap/expect on values derived from upstream response content
            whose error type is a parse/decode error, in any validator body
            (each remaining site is audited with the invariant it relies on).
@@ -63,6 +78,10 @@ def run(ctx):
     rule_nsec3(ctx, F)
     rule_range(ctx, F)
     rule_chain(ctx, F)
+    rule_signer(ctx, F)
+    rule_target(ctx, F)
+    rule_wild(ctx, F)
+    rule_every(ctx, F)
 
 
 def rule_sig(ctx, F):
@@ -76,8 +95,22 @@ def rule_sig(ctx, F):
         return
     vbb = ver[0][0]
     facts = [(show(t), v) for t, v in bool_facts(b, vbb, F)]
+    # The two validity-period guards depend on the clock; they may sit in front of the signature cache instead
+    # (check_sig_cached), where they must dominate the cache lookup and the call of check_sig alike.
+    callers = list({cb.path: cb for cb, _, _ in F.callers_of(r"^dnssec::validator::group::Group::check_sig$")}.values())
+    def at_callers(pred):
+        if not callers:
+            return False
+        for cb in callers:
+            sites = cb.calls_matching(r"group::Group::check_sig$") + cb.calls_matching(r"Cache::<.*>::get(::<.*>)?$")
+            for bb, _ in sites:
+                if not any(pred(show(t), v) for t, v in bool_facts(cb, bb, F)):
+                    return False
+        return True
     for name, pred in SIG_GUARDS:
         ok = any(pred(s, v) for s, v in facts)
+        if not ok and ("expir" in name or "inception" in name):
+            ok = at_callers(pred)
         ctx.ob(R, b, name, ok,
                "Group::check_sig reaches the cryptographic verification without the RFC 4035 5.3.1 check '%s' having "
                "passed on every path: a signature that must be rejected on that ground would be accepted" % name, b.where(vbb))
@@ -171,6 +204,17 @@ def rule_cache(ctx, F):
         v = deep_strip(b.term_of_operand(ins[0][1]["args"][2]))
         ok = v[0] == "call" and v[5] == chk[0][0]
     ctx.ob(R, b, "cached value is check_sig's verdict", ok, "the value stored in the signature cache is not the result of check_sig")
+    # what is memoised must be a function of the key: the key holds no time, so the memoised verdict must not read the clock
+    cs = F.one_body(r"^dnssec::validator::group::Group::check_sig$")
+    if ctx.anchor(R, "Group::check_sig", cs):
+        import sigs
+        clock = sorted({(tt["fn"] or "") for sb, bb, tt in sigs.callees_deep(F, cs, depth=3)
+                        if re.search(r"(Timestamp|SystemTime|Instant)(::<.*>)?::now$|::elapsed$", tt["fn"] or "")})
+        ctx.ob(R, cs, "the memoised verdict does not depend on the clock", not clock,
+               "check_sig, whose result check_sig_cached stores under a key made of signed data, signature and key only, "
+               "reads the clock (%s): the verdict 'inside its validity period' is remembered, so a signature that has "
+               "expired since is still reported valid from the cache (and one seen before its inception stays invalid)"
+               % ", ".join(clock))
 
 
 def rule_nsec(ctx, F):
@@ -253,6 +297,27 @@ def rule_panic(ctx, F):
                    "response panics the validator" % (fn.split("::")[-1], sname, targs[1].split("::")[-1]), b.where(bb),
                    nontrivial=False, detail=reason)
     ctx.call_sites += n
+    # time arithmetic: `Duration - Duration`, `Instant - Duration`, `Instant + Duration` panic on overflow; TTLs and
+    # signature lifetimes come from upstream and the other operand from the clock, so neither is bounded
+    nt = 0
+    for p, b in F.bodies.items():
+        if not (p.startswith((V, "<" + V, "net::client::validator", "<net::client::validator"))) or "::test" in p:
+            continue
+        for bb, t in b.calls():
+            fn = t["fn"] or ""
+            if re.search(r"core::ops::(Sub|Add|Mul|SubAssign|AddAssign)::\w+$", fn) and \
+                    re.search(r"time::(Duration|Instant|SystemTime)$", (t["targs"] or [""])[0]):
+                nt += 1
+                ctx.ob(R, b, "no panicking time arithmetic (%s on %s)" % (fn.split("::")[-1], t["targs"][0].split("::")[-1]), False,
+                       "%s computes `%s` with the panicking operator: with a TTL of 0 (or once the lifetime taken from an "
+                       "upstream TTL / signature expiration has run out) the subtraction overflows and the validator panics"
+                       % (p, (" %s " % {"sub": "-", "add": "+", "mul": "*"}.get(fn.split("::")[-1], fn.split("::")[-1]))
+                          .join(x.split("::")[-1] for x in t["targs"][:2])), b.where(bb))
+    nb = F.one_body(r"^dnssec::validator::context::Node::ttl$")
+    if ctx.anchor(R, "Node::ttl", nb):
+        ctx.ob(R, nb, "remaining lifetime of a cached node is computed without overflow",
+               any(re.search(r"Duration::(saturating_sub|checked_sub)$", tt["fn"] or "") for _, tt in nb.calls()) ,
+               "Node::ttl does not use a saturating/checked subtraction for valid_for - elapsed()")
     # the two repaired sites stay repaired: nsec3_label_to_hash returns the decode error
     b = F.one_body(r"^dnssec::validator::nsec::nsec3_label_to_hash$")
     if ctx.anchor(R, "nsec3_label_to_hash", b):
@@ -275,17 +340,22 @@ def rule_panic(ctx, F):
 def rule_time(ctx, F):
     R = "C14.time"
     ctx.floor(R, 2)
-    b = F.one_body(r"^dnssec::validator::group::Group::check_sig$")
-    if b is None:
+    b0 = F.one_body(r"^dnssec::validator::group::Group::check_sig$")
+    if b0 is None:
         return
     ok = 0
-    for bb, t in b.calls():
+    # check_sig and the function in front of the signature cache that calls it
+    scope = {b0.path: b0}
+    scope.update({cb.path: cb for cb, _, _ in F.callers_of(r"^dnssec::validator::group::Group::check_sig$")})
+    for b in scope.values():
+      for bb, t in b.calls():
         fn = t["fn"] or ""
         if re.search(r"cmp::PartialOrd::(gt|lt|ge|le)$", fn) and t["targs"][:1] == ["rdata::dnssec::Timestamp"]:
             res = t["res"] or ""
             ctx.ob(R, b, "%s on Timestamp is the RFC 1982 order" % fn.split("::")[-1],
                    "core::cmp::PartialOrd" in res or res == "" or "Timestamp" in res, "signature time comparison resolves to %s" % res, b.where(bb))
             ok += 1
+    b = b0
     ctx.ob(R, b, "expiration and inception are both compared", ok >= 2, "found %d Timestamp comparisons" % ok)
 
 
@@ -456,3 +526,162 @@ def rule_chain(ctx, F):
                "do_cname_dname follows a %s to the next name without map_maybe_secure(g.state(), ..): an unsigned / insecure link "
                "leaves the chain's state Secure (path %s)" % ("CNAME" if what == "cname" else "DNAME", fmt_path(path) if path else ""),
                b.where(bb))
+
+
+def rule_signer(ctx, F):
+    R = "C14.signer"
+    ctx.floor(R, 3)
+    fc = [b for p, b in F.bodies.items() if re.search(r"ValidationContext::<\w+>::find_closest_node::\{closure#0\}$", p)]
+    gn = [b for p, b in F.bodies.items() if re.search(r"ValidationContext::<\w+>::get_node::\{closure#0\}$", p)]
+    if not ctx.anchor(R, "find_closest_node / get_node", len(fc) == 1 and len(gn) == 1):
+        return
+    fc, gn = fc[0], gn[0]
+
+    def not_intermediate(b, bb):
+        return any("intermediate(" in show(tm) and v is False for tm, v in bool_facts(b, bb, F))
+
+    # 1. what find_closest_node hands back as the closest node
+    ta = [bb for bb, _ in fc.calls_matching(r"Node::trust_anchor(::<.*>)?$")]
+    cl = [bb for bb, _ in fc.calls_matching(r"::cache_lookup$")]
+    rets = [r for r in return_assignments(fc) if "Ok" in str(r[2])]
+    if not ctx.anchor(R, "find_closest_node: trust_anchor, cache_lookup and Ok returns", ta and cl and len(rets) >= 2, fc.where()):
+        return
+    for r in rets:
+        bb = r[0]
+        from_cache = any(fc.dominates(c, bb) for c in cl) and not any(fc.dominates(a, bb) and any(fc.dominates(c, a) for c in cl) for a in ta)
+        from_ta = any(fc.dominates(a, bb) for a in ta)
+        if from_cache and not from_ta:
+            ctx.ob(R, fc, "a cached node is taken as the closest node only if it is not intermediate", not_intermediate(fc, bb),
+                   "find_closest_node returns whatever node the cache holds for an ancestor, also an intermediate one (an empty "
+                   "non-terminal, no keys); get_node then uses it as the signer for the next DS lookup, no key matches and a "
+                   "correctly signed delegation below an already visited empty non-terminal is reported bogus", fc.where(bb))
+        else:
+            ctx.ob(R, fc, "closest node built from the trust anchor", from_ta,
+                   "find_closest_node returns a node that comes neither from Node::trust_anchor nor from the cache", fc.where(bb))
+    # 2. what get_node passes to create_child_node as the signer
+    cc = gn.calls_matching(r"::create_child_node(::<.*>)?$")
+    if not ctx.anchor(R, "create_child_node call in get_node", len(cc) == 1, gn.where()):
+        return
+    cbb, ct = cc[0]
+    # the signer argument is a (re)borrow of one multiply-assigned local: follow single-definition copies / borrows
+    def root_local(op, depth=0):
+        if depth > 8 or op[0] not in ("c", "m"):
+            return None
+        n = op[1][0]
+        ds = gn.defs().get(n, [])
+        if len(ds) == 1 and ds[0][0] == "stmt":
+            rv = ds[0][3]
+            if rv[0] == "ref":
+                return root_local(("c", [rv[2][0]]), depth + 1)
+            if rv[0] == "use":
+                return root_local(rv[1], depth + 1)
+        if len(ds) == 1 and ds[0][0] == "call" and re.search(r"Deref::deref$", ds[0][2]["fn"] or ""):
+            return root_local(ds[0][2]["args"][0], depth + 1)
+        return n
+    n = root_local(ct["args"][2])
+    defs = gn.defs().get(n, []) if n is not None else []
+    if not ctx.anchor(R, "the signer node variable has an initial and a loop assignment", len(defs) >= 2, gn.where(cbb)):
+        return
+    fcall = [bb for bb, _ in gn.calls_matching(r"::find_closest_node(::<.*>)?$")]
+    for d in defs:
+        bb = d[1]
+        if gn.blocks[bb]["c"]:
+            continue            # the unwind twin of a drop-and-assign
+        in_loop = gn.dominates(cbb, bb)
+        if in_loop:
+            ctx.ob(R, gn, "inside the walk the signer only moves to a non-intermediate child", not_intermediate(gn, bb),
+                   "get_node makes a freshly created child the signer for the next step without testing that it is not an "
+                   "intermediate node", gn.where(bb))
+        else:
+            ctx.ob(R, gn, "the walk starts from find_closest_node's node", any(gn.dominates(f, bb) for f in fcall),
+                   "the initial signer node in get_node does not come from find_closest_node", gn.where(bb))
+
+
+def rule_target(ctx, F):
+    R = "C14.target"
+    ctx.floor(R, 2)
+    bs = [b for p, b in F.bodies.items() if re.search(r"group::Group::validate_with_vc(::<.*>)?::\{closure#0\}$", p)]
+    if not ctx.anchor(R, "Group::validate_with_vc", len(bs) == 1):
+        return
+    b = bs[0]
+    gn = b.calls_matching(r"::get_node(::<.*>)?$")
+    if not ctx.anchor(R, "get_node call in validate_with_vc", len(gn) == 1, b.where()):
+        return
+    op = gn[0][1]["args"][1]
+    n = op[1][0]
+    for _ in range(6):
+        ds = b.defs().get(n, [])
+        if len(ds) == 1 and ds[0][0] == "stmt" and ds[0][3][0] in ("use", "ref"):
+            rv = ds[0][3]
+            n = rv[1][1][0] if rv[0] == "use" and rv[1][0] in ("c", "m") else (rv[2][0] if rv[0] == "ref" else n)
+            continue
+        break
+    defs = [d for d in b.defs().get(n, []) if not b.blocks[d[1]]["c"]]
+    from_sig = [d for d in defs if d[0] == "call" and re.search(r"Rrsig::<.*>::signer_name$", d[2]["fn"] or "")]
+    def via_owner(d):
+        if d[0] == "call":
+            return bool(re.search(r"Record::<.*>::owner$", d[2]["fn"] or ""))
+        if d[0] == "stmt":
+            tm = deep_strip(b.term_of_rvalue(d[3]))
+            return tm[0] == "call" and bool(re.search(r"Record::<.*>::owner$", tm[1] or ""))
+        return False
+    from_owner = [d for d in defs if via_owner(d)]
+    if not ctx.anchor(R, "the name whose node decides the state comes from the signer name or the owner",
+                      from_sig and from_owner and len(from_sig) + len(from_owner) == len(defs), b.where(gn[0][0])):
+        return
+    for d in from_sig:
+        ok = any("ends_with(" in show(tm) and v is True for tm, v in bool_facts(b, d[1], F))
+        ctx.ob(R, b, "a signer name is trusted to name the zone only if the owner ends with it", ok,
+               "validate_with_vc looks up the security status of whatever signer name the first RRSIG carries: an RRset of a "
+               "signed zone whose RRSIG is replaced by one naming an insecure (or unanchored) zone as signer is reported "
+               "insecure instead of bogus", b.where(d[1]))
+    for d in from_owner:
+        ctx.ob(R, b, "without a usable signer name the owner decides", True, "", b.where(d[1]))
+
+
+def rule_wild(ctx, F):
+    R = "C14.wild"
+    ctx.floor(R, 2)
+    sites = F.callers_of(r"^dnssec::validator::utilities::check_not_exists_for_wildcard$")
+    sites = [(b, bb, tt) for b, bb, tt in sites if "::test" not in b.path]
+    if not ctx.anchor(R, "callers of check_not_exists_for_wildcard", len(sites) >= 2):
+        return
+    callee = [b for p, b in F.bodies.items() if re.search(r"^dnssec::validator::utilities::check_not_exists_for_wildcard::\{closure#0\}$", p)]
+    def guarded(b, bb):
+        for tm, v in bool_facts(b, bb, F):
+            s = show(tm)
+            if "star_closest_encloser" in s and v is False and ("eq(" in s or "Eq(" in s or "name_eq(" in s):
+                return True
+            if "star_closest_encloser" in s and v is True and ("ne(" in s or "Ne(" in s):
+                return True
+        return False
+    inside = False
+    if len(callee) == 1:
+        cb = callee[0]
+        first = cb.calls_matching(r"nsec_for_not_exists$")
+        inside = bool(first) and all(guarded(cb, bb) for bb, _ in first)
+    for b, bb, tt in sites:
+        ctx.ob(R, b, "the queried name is known not to be the wildcard itself before its non-existence is demanded",
+               inside or guarded(b, bb),
+               "%s asks for a proof that the name does not exist although it may be the wildcard owner itself (`*.<closest "
+               "encloser>`): a correctly signed answer to a query for the wildcard name is reported bogus (the sibling call "
+               "site compares with star_closest_encloser first)" % b.path.split("::{closure")[0].split("::")[-1], b.where(bb))
+
+
+def rule_every(ctx, F):
+    R = "C14.every"
+    ctx.floor(R, 1)
+    bs = [b for p, b in F.bodies.items() if re.search(r"ValidationContext::<\w+>::validate_msg(::<.*>)?::\{closure#0\}$", p)]
+    if not ctx.anchor(R, "ValidationContext::validate_msg", len(bs) == 1):
+        return
+    b = bs[0]
+    cyc = cyclic_blocks(b)
+    folds = []
+    for bb, tt in b.calls_matching(r"utilities::map_maybe_secure$"):
+        a0 = deep_strip(b.term_of_operand(tt["args"][0]))
+        if bb in cyc and any(s[0] == "call" and re.search(r"ValidatedGroup::state$", s[1] or "") for s in walk(a0)):
+            folds.append(bb)
+    ctx.ob(R, b, "the state of every RRset in the answer section enters the verdict", bool(folds),
+           "validate_msg looks only at the RRsets on the CNAME/DNAME chain and at the final answer: an additional RRset in the "
+           "answer section that is unsigned (insecure or indeterminate) leaves the verdict Secure, and the validating client "
+           "sets AD on a message that carries it")
